@@ -46,7 +46,9 @@ pub struct Ev {
 #[derive(Clone, Debug, Serialize, Deserialize, PartialEq)]
 #[serde(tag = "op")]
 pub enum Op {
-    Append { ev: Ev, explicit_key: bool },
+    /// `then`: a read command pipelined behind the append in the same write (0 none, 1 ESVER,
+    /// 2 EPSEQ, 3 ESCAN - +): the acknowledged append must be visible to it
+    Append { ev: Ev, explicit_key: bool, #[serde(default)] then: u8 },
     MAppend { key: usize, events: Vec<Ev> },
     Get { which: u64, known: bool },
     Scan { stream: usize, start: Option<u64>, end: Option<u64>, count: Option<u64>, explicit_key: bool },
@@ -99,7 +101,7 @@ pub fn plan(tier: Tier, seed: u64) -> Value {
     let mut ops = Vec::new();
     for _ in 0..nops {
         let op = match rng.weighted(&[8, 6, 4, 5, 4, 2, 2, 1, 3]) {
-            0 => Op::Append { ev: gen_ev(&mut rng, streams), explicit_key: rng.chance(1, 2) },
+            0 => Op::Append { ev: gen_ev(&mut rng, streams), explicit_key: rng.chance(1, 2), then: if rng.chance(1, 3) { 1 + rng.below(3) as u8 } else { 0 } },
             1 => {
                 let n = 1 + rng.usize_below(4);
                 Op::MAppend { key: rng.usize_below(2), events: (0..n).map(|_| gen_ev(&mut rng, streams)).collect() }
@@ -384,8 +386,11 @@ fn run(plan: C22Plan) -> RunOutcome {
     let mut probes: BTreeMap<String, u64> = BTreeMap::new();
 
     // one request/response exchange; bytes are delivered in PRNG chunks
-    let mut exchange = |cluster: &mut Cluster, client: &mut Client, rng: &mut Rng, args: Vec<Vec<u8>>| -> Result<V, String> {
-        let bytes = encode_cmd(&args);
+    let mut exchange_with = |cluster: &mut Cluster, client: &mut Client, rng: &mut Rng, args: Vec<Vec<u8>>, follow: Option<Vec<Vec<u8>>>| -> Result<V, String> {
+        let mut bytes = encode_cmd(&args);
+        if let Some(f) = &follow {
+            bytes.extend_from_slice(&encode_cmd(f));
+        }
         let cuts = match rng.below(4) {
             0 => vec![rng.usize_below(bytes.len().max(1))],
             1 => vec![rng.usize_below(bytes.len().max(1)), rng.usize_below(bytes.len().max(1))],
@@ -403,8 +408,14 @@ fn run(plan: C22Plan) -> RunOutcome {
             cluster.settle();
         }
         let start = std::time::Instant::now();
+        let mut rounds = 0;
         loop {
             cluster.settle();
+            rounds += 1;
+            if rounds == 3 {
+                // a parked confirmation update (hook K7) has been delayed long enough
+                sim::hold_confirmation_updates(false);
+            }
             let closed = client.read_available().is_err();
             match decode(&client.inbuf) {
                 Ok(Some((v, used))) => {
@@ -422,6 +433,28 @@ fn run(plan: C22Plan) -> RunOutcome {
             }
         }
     };
+    // the next reply on the connection (of a pipelined command)
+    let read_reply = |cluster: &mut Cluster, client: &mut Client| -> Result<V, String> {
+        let start = std::time::Instant::now();
+        loop {
+            let closed = client.read_available().is_err();
+            match decode(&client.inbuf) {
+                Ok(Some((v, used))) => {
+                    client.inbuf.drain(..used);
+                    return Ok(v);
+                }
+                Ok(None) => {}
+                Err(e) => return Err(format!("undecodable reply: {e}")),
+            }
+            if closed {
+                return Err("connection closed by the server".into());
+            }
+            if start.elapsed().as_secs() > 15 {
+                return Err("no reply".into());
+            }
+            cluster.settle();
+        }
+    };
 
     let mut known_ids: Vec<Uuid> = Vec::new();
     for (opi, op) in plan.ops.iter().enumerate() {
@@ -432,6 +465,7 @@ fn run(plan: C22Plan) -> RunOutcome {
             eprintln!("op {opi} {op:?}");
         }
         let mut conn_error: Option<String> = None;
+        sim::hold_confirmation_updates(false);
         let payload_of = |n: usize| -> Vec<u8> { (0..n).map(|i| b'a' + (i % 26) as u8).collect() };
         // builds the argument list of one event and the model's verdict for it
         let buckets = plan.buckets;
@@ -499,7 +533,7 @@ fn run(plan: C22Plan) -> RunOutcome {
             (a, ok, id, next, strict_reject)
         };
         match op {
-            Op::Ping => match exchange(&mut cluster, &mut client, &mut rng, vec![b"PING".to_vec()]) {
+            Op::Ping => match exchange_with(&mut cluster, &mut client, &mut rng, vec![b"PING".to_vec()], None) {
                 Ok(v) => {
                     if v.is_err() {
                         report("ping-rejected", "PING", format!("PING answered {v:?}"));
@@ -507,7 +541,7 @@ fn run(plan: C22Plan) -> RunOutcome {
                 }
                 Err(e) => conn_error = Some(e),
             },
-            Op::Append { ev, explicit_key } => {
+            Op::Append { ev, explicit_key, then } => {
                 let sname = stream_names[ev.stream].clone();
                 let pk = home_key(ev.stream);
                 let send_key = *explicit_key || home_is_explicit(ev.stream);
@@ -529,7 +563,33 @@ fn run(plan: C22Plan) -> RunOutcome {
                         ok = false;
                     }
                 }
-                match exchange(&mut cluster, &mut client, &mut rng, full) {
+                let follow: Option<Vec<Vec<u8>>> = match then {
+                    1 => {
+                        let mut a = vec![b"ESVER".to_vec(), sname.clone().into_bytes()];
+                        if send_key {
+                            a.push(b"PARTITION_KEY".to_vec());
+                            a.push(pk.to_string().into_bytes());
+                        }
+                        Some(a)
+                    }
+                    2 => Some(vec![b"EPSEQ".to_vec(), pk.to_string().into_bytes()]),
+                    3 => {
+                        let mut a = vec![b"ESCAN".to_vec(), sname.clone().into_bytes(), b"-".to_vec(), b"+".to_vec()];
+                        if send_key {
+                            a.push(b"PARTITION_KEY".to_vec());
+                            a.push(pk.to_string().into_bytes());
+                        }
+                        Some(a)
+                    }
+                    _ => None,
+                };
+                if follow.is_some() && rng.chance(1, 2) {
+                    // the confirmation actor's mailbox is slow: the watermark update of this append
+                    // is not processed at once
+                    sim::hold_confirmation_updates(true);
+                    *probes.entry("confirmation_update_delayed".into()).or_insert(0) += 1;
+                }
+                match exchange_with(&mut cluster, &mut client, &mut rng, full, follow.clone()) {
                     Ok(v) => {
                         if ok {
                             if v.is_err() {
@@ -571,6 +631,53 @@ fn run(plan: C22Plan) -> RunOutcome {
                     }
                     Err(e) => conn_error = Some(e),
                 }
+                // the pipelined read sees the append when the append was acknowledged
+                if follow.is_some() && conn_error.is_none() {
+                    let r = read_reply(&mut cluster, &mut client);
+                    sim::hold_confirmation_updates(false);
+                    cluster.settle();
+                    match r {
+                        Ok(v) => {
+                            let bucket = partition % plan.buckets;
+                            match then {
+                                1 => {
+                                    let want = model.next_ver.get(&(bucket, sname.clone())).map(|n| n - 1);
+                                    let got = match &v {
+                                        V::Null => Ok(None),
+                                        V::Int(i) => Ok(Some(*i as u64)),
+                                        other => Err(format!("{other:?}")),
+                                    };
+                                    if got != Ok(want) {
+                                        report("acknowledged-append-not-visible", "ESVER", format!("op {opi}: ESVER pipelined behind EAPPEND on {sname} answered {got:?}; the model says {want:?}"));
+                                    }
+                                }
+                                2 => {
+                                    let want = model.next_seq.get(&partition).map(|n| n - 1);
+                                    let got = match &v {
+                                        V::Null => Ok(None),
+                                        V::Int(i) => Ok(Some(*i as u64)),
+                                        other => Err(format!("{other:?}")),
+                                    };
+                                    if got != Ok(want) {
+                                        report("acknowledged-append-not-visible", "EPSEQ", format!("op {opi}: EPSEQ pipelined behind EAPPEND answered {got:?}; the model says {want:?}"));
+                                    }
+                                }
+                                _ => {
+                                    let in_range: Vec<&MEvent> = model.events.iter().filter(|e| e.partition % plan.buckets == bucket && e.stream == sname).collect();
+                                    let got = match v.get("events") {
+                                        Some(V::Arr(a)) => a.len(),
+                                        _ => usize::MAX,
+                                    };
+                                    if got != in_range.len().min(100) {
+                                        report("acknowledged-append-not-visible", "ESCAN", format!("op {opi}: ESCAN pipelined behind EAPPEND on {sname} returned {got} events; the model has {}", in_range.len()));
+                                    }
+                                }
+                            }
+                            *probes.entry("read_pipelined_behind_append".into()).or_insert(0) += 1;
+                        }
+                        Err(e) => conn_error = Some(e),
+                    }
+                }
             }
             Op::MAppend { key, events } => {
                 let pk = keys[*key];
@@ -600,7 +707,7 @@ fn run(plan: C22Plan) -> RunOutcome {
                     pending.insert((partition % plan.buckets, sname.clone()), next_ver + 1);
                     per_event.push((sname, next_ver, id, ev.timestamp, ev.payload));
                 }
-                match exchange(&mut cluster, &mut client, &mut rng, full) {
+                match exchange_with(&mut cluster, &mut client, &mut rng, full, None) {
                     Ok(v) => {
                         if ok {
                             if v.is_err() {
@@ -658,7 +765,7 @@ fn run(plan: C22Plan) -> RunOutcome {
             }
             Op::Get { which, known } => {
                 let id = if *known && !known_ids.is_empty() { known_ids[(*which as usize) % known_ids.len()] } else { make_id(7, 0xdead_0000 + *which as u128) };
-                match exchange(&mut cluster, &mut client, &mut rng, vec![b"EGET".to_vec(), id.to_string().into_bytes()]) {
+                match exchange_with(&mut cluster, &mut client, &mut rng, vec![b"EGET".to_vec(), id.to_string().into_bytes()], None) {
                     Ok(v) => {
                         let me = model.events.iter().find(|e| e.id == id);
                         match (me, &v) {
@@ -685,7 +792,7 @@ fn run(plan: C22Plan) -> RunOutcome {
                     args.push(b"COUNT".to_vec());
                     args.push(c.to_string().into_bytes());
                 }
-                match exchange(&mut cluster, &mut client, &mut rng, args) {
+                match exchange_with(&mut cluster, &mut client, &mut rng, args, None) {
                     Ok(v) => {
                         let s0 = start.unwrap_or(0);
                         let in_range: Vec<&MEvent> = model.events.iter().filter(|e| e.partition % plan.buckets == partition % plan.buckets && e.stream == sname && e.version >= s0 && end.map(|x| e.version <= x).unwrap_or(true)).collect();
@@ -703,7 +810,7 @@ fn run(plan: C22Plan) -> RunOutcome {
                     args.push(b"COUNT".to_vec());
                     args.push(c.to_string().into_bytes());
                 }
-                match exchange(&mut cluster, &mut client, &mut rng, args) {
+                match exchange_with(&mut cluster, &mut client, &mut rng, args, None) {
                     Ok(v) => {
                         let s0 = start.unwrap_or(0);
                         let in_range: Vec<&MEvent> = model.events.iter().filter(|e| e.partition == partition && e.seq >= s0 && end.map(|x| e.seq <= x).unwrap_or(true)).collect();
@@ -724,7 +831,7 @@ fn run(plan: C22Plan) -> RunOutcome {
                     args.push(b"PARTITION_KEY".to_vec());
                     args.push(pk.to_string().into_bytes());
                 }
-                match exchange(&mut cluster, &mut client, &mut rng, args) {
+                match exchange_with(&mut cluster, &mut client, &mut rng, args, None) {
                     Ok(v) => {
                         let want = model.next_ver.get(&(partition % plan.buckets, sname.clone())).map(|n| n - 1);
                         let got = match &v {
@@ -743,7 +850,7 @@ fn run(plan: C22Plan) -> RunOutcome {
                 let pk = keys[*key];
                 let partition = uuid_to_partition_hash(pk) % plan.partitions;
                 let sel = if *by_id { partition.to_string() } else { pk.to_string() };
-                match exchange(&mut cluster, &mut client, &mut rng, vec![b"EPSEQ".to_vec(), sel.into_bytes()]) {
+                match exchange_with(&mut cluster, &mut client, &mut rng, vec![b"EPSEQ".to_vec(), sel.into_bytes()], None) {
                     Ok(v) => {
                         let want = model.next_seq.get(&partition).map(|n| n - 1);
                         let got = match &v {
@@ -774,7 +881,7 @@ fn run(plan: C22Plan) -> RunOutcome {
                     10 => vec![b"EPSEQ".to_vec(), b"70000".to_vec()],
                     _ => vec![b"EAPPEND".to_vec(), s.clone(), b"Evt".to_vec(), b"EVENT_ID".to_vec(), b"1234".to_vec()],
                 };
-                match exchange(&mut cluster, &mut client, &mut rng, args.clone()) {
+                match exchange_with(&mut cluster, &mut client, &mut rng, args.clone(), None) {
                     Ok(v) => {
                         if !v.is_err() {
                             report("invalid-request-accepted", "invalid", format!("op {opi}: request {:?} answered {v:?}", args.iter().map(|a| String::from_utf8_lossy(a).to_string()).collect::<Vec<_>>()));
